@@ -353,6 +353,9 @@ class WsConnH:
     def texts(self):
         return [f['frame'] for f in self.frames]
 
+    def accept_clk_safe(self):
+        return getattr(self, 'accept_clk', 1e18)
+
     # -- what the connection reports
     def _accepted(self):
         self.accepted = True
